@@ -23,6 +23,7 @@ from __future__ import annotations
 
 import ast
 import itertools
+import re
 from fractions import Fraction
 
 from .core import Unrecognised
@@ -400,9 +401,28 @@ class Executor:
                     self.assign(node.generators[0].target, item, e2, node)
                     out.append(self.ev(node.elt, e2))
                 return Tup(out, "list")
-        return Obj("[" + src(node) + "]")
+        return self.e_GeneratorExp(node, env)
 
     def e_GeneratorExp(self, node, env):
+        # [f(x) for x in X] over an opaque X: the element expression is evaluated on a
+        # representative element each(X), so that keys are built from values, not local names
+        if len(node.generators) == 1 and not node.generators[0].ifs and isinstance(node, (ast.GeneratorExp, ast.ListComp)):
+            try:
+                it = self.ev(node.generators[0].iter, env)
+                if isinstance(it, Tup):
+                    out = []
+                    for item in it.items:
+                        e2 = dict(env)
+                        self.assign(node.generators[0].target, item, e2, node)
+                        out.append(self.ev(node.elt, e2))
+                    return Tup(out, "list")
+                if isinstance(it, Obj):
+                    e2 = dict(env)
+                    self.assign(node.generators[0].target, Obj(f"each({it.k})"), e2, node)
+                    elt = self.ev(node.elt, e2)
+                    return Obj(f"[{vkey(elt)}]")
+            except (Unrecognised, NeedAtom):
+                pass
         return Obj("[" + src(node) + "]")
 
     e_SetComp = e_DictComp = e_GeneratorExp
@@ -609,11 +629,23 @@ class Executor:
             if fn in ("reversed", "range", "enumerate", "zip", "list", "tuple", "sorted", "sum", "str", "float", "set", "frozenset", "dict", "repr", "ord", "chr", "any", "all", "type", "next", "iter", "getattr", "hasattr", "print", "id", "map", "filter", "bytes", "bytearray", "slice"):
                 if fn in ("list", "tuple") and len(args) == 1 and isinstance(args[0], Tup):
                     return Tup(args[0].items, "list" if fn == "list" else "tuple")
+                if fn == "sum" and len(args) == 1 and isinstance(args[0], Tup):
+                    try:
+                        tot = Lin.k(0)
+                        for it in args[0].items:
+                            tot = tot + self.num(it)
+                        return tot
+                    except Unrecognised:
+                        pass
                 if fn == "enumerate" and len(args) >= 1 and isinstance(args[0], Tup):
                     start = int(args[1].const) if len(args) > 1 and isinstance(args[1], Lin) and args[1].is_int_const() else 0
                     return Tup([Tup([Lin.k(i + start), it]) for i, it in enumerate(args[0].items)], "list")
                 if fn == "zip" and args and all(isinstance(a, Tup) for a in args):
                     return Tup([Tup(list(t)) for t in zip(*[a.items for a in args])], "list")
+                if fn == "range" and args and all(isinstance(a, Lin) and a.is_int_const() for a in args):
+                    vals = list(range(*[int(a.const) for a in args]))
+                    if len(vals) <= 16:
+                        return Tup([Lin.k(v) for v in vals], "list")
                 if fn == "range" and all(isinstance(a, Lin) for a in args):
                     return Obj("range(" + ", ".join(vkey(a) for a in args) + ")")
                 k = f"{fn}(" + ", ".join(vkey(a) for a in args) + ")"
@@ -649,8 +681,17 @@ class Executor:
             return self.inline_call(fv.node, args, kwargs, closure=fv.closure)
         if isinstance(node.func, ast.Name) and node.func.id in self.inline_funcs and self.depth < MAX_INLINE_DEPTH:
             return self.inline_call(self.inline_funcs[node.func.id], args, kwargs, closure=None)
+        # mutation of a local literal list
+        if isinstance(node.func, ast.Attribute) and isinstance(node.func.value, ast.Name) and isinstance(env.get(node.func.value.id), Tup) and env[node.func.value.id].kind == "list" and not kwargs:
+            cur = env[node.func.value.id]
+            if node.func.attr == "append" and len(args) == 1:
+                env[node.func.value.id] = Tup(cur.items + [args[0]], "list")
+                return Const(None)
+            if node.func.attr == "extend" and len(args) == 1 and isinstance(args[0], Tup):
+                env[node.func.value.id] = Tup(cur.items + args[0].items, "list")
+                return Const(None)
         fkey = vkey(fv) if fv is not None else src(node.func)
-        k = fkey + "(" + ", ".join([vkey(a) for a in args] + [f"{n}={vkey(v)}" for n, v in kwargs.items()]) + ")"
+        k = fkey + "(" + ", ".join([vkey(a) for a in args] + [(f"**{vkey(v)}" if n.startswith("**") else f"{n}={vkey(v)}") for n, v in kwargs.items()]) + ")"
         self.calls.append((k, node, fkey))
         return Obj(k)
 
@@ -910,7 +951,11 @@ class Executor:
         if self.loop_mode == "forbid":
             raise Unrecognised(f"loop over non-literal iterable in fragment: {src(s.iter)}")
         # zero iterations or one symbolic iteration whose effects are marked as repeated
-        if not self.ask_bool(f"loop-nonempty:{vkey(it)}@{getattr(s, 'lineno', 0)}"):
+        # for a list-like opaque value "non-empty" and "truthy" are the same fact
+        nonempty_atom = f"truthy:{it.k}" if isinstance(it, Obj) and not it.k.endswith(")") else f"loop-nonempty:{vkey(it)}@{getattr(s, 'lineno', 0)}"
+        if isinstance(it, Obj) and re.match(r"^[A-Z_]+[\[(]", it.k):
+            nonempty_atom = f"truthy:{it.k}"
+        if not self.ask_bool(nonempty_atom):
             self.run(s.orelse, env)
             return
         self.assign(s.target, Obj(f"item({vkey(it)})"), env, s)
